@@ -19,3 +19,21 @@ def check(prop, tier, replay_path):
         what="a client-visible result of the real request tables is not allowed by Requests.tla",
         assumptions=["every mutex-protected method of the tables is one step; proposalShard.propose is taken as one step (its internal window between the pending insert and the queue add is not split)",
                      "raft's side (committed / dropped / applied / ready-to-read) is played by the driver; the end-to-end path is covered by C01"])
+
+
+def check_queues(prop, tier, replay_path):
+    """the double-buffered queues in front of the tables (queue.go) as sequential objects"""
+    n, tr, st = (4, 60, 300) if tier == "quick" else (16, 200, 500)
+    batches = [{"first": k * tr, "traces": tr, "steps": st} for k in range(n)]
+    return tvcheck.tv_run(
+        prop, tier, replay_path,
+        harness_dirs=["root"], pkg=".", test="TestVerifQqsim",
+        trace_module="QueuesTrace", tag="QQ-REPORT", batches=batches,
+        env_of=lambda b, seed, out: {"VERIF_OUT": out, "VERIF_SEED": seed, "VERIF_FIRST": b["first"],
+                                     "VERIF_TRACES": b["traces"], "VERIF_STEPS": b["steps"]},
+        mc=[("MCQueues", "MC_Queues_entry.cfg", 300, 4), ("MCQueues", "MC_Queues_read.cfg", 300, 4)], mc_deadlock=False,
+        build_name="nhsim", merge_into_existing=True,
+        sig_of=lambda op, fields: "C12:queue:%s" % op,
+        what="a queue in front of the request tables lost, duplicated or reordered an accepted item, or modified a batch it had handed over",
+        assumptions=["entryQueue / readIndexQueue / readyShard (queue.go) are decided as sequential objects: real objects vs "
+                     "Queues.tla; MCQueues checks ExactlyOnceInOrder exhaustively for a small queue"])
